@@ -18,7 +18,9 @@
 (*               observed: the event B's application receives                   *)
 (*  ep = "query" A.Query(s1, s2) -> B.NotifyMsg; B answers s3 (q.Respond) with   *)
 (*               relay factor 1: direct reply B->A, relayed reply B->C->A;      *)
-(*               observed: query at B, reply at A, relay bytes                  *)
+(*               observed: query at B, reply at A, relay bytes; via = "named":    *)
+(*               RequireNodeNames everywhere and the direct reply is dropped, so   *)
+(*               the reply can only arrive through the relay                       *)
 (*  ep = "relay" a relay envelope around a reply with payload s1 for a peer     *)
 (*               named s2 is given to B.NotifyMsg; observed: bytes B forwards   *)
 EXTENDS Integers, Sequences, FiniteSets, TLC
@@ -66,8 +68,14 @@ TagIn   == { Rec("tags", pv, pvb, via, t, 0, <<>>, <<>>, <<>>, 0) :
 SizeIn  == { Rec("size", pv, 5, via, NoTags, L, <<>>, <<>>, <<>>, 0) :
                pv \in Versions, via \in {"create", "settags"}, L \in {8, 300, 510, 511, 512, 513, 514, 600} }
 EventIn == { Rec("event", pv, 5, "-", NoTags, 0, n, p, <<>>, c) : pv \in {2, 5}, n \in Strs(MaxStr), p \in Strs(MaxStr), c \in 0..1 }
+\* via = "named": every node involved runs memberlist with RequireNodeNames (as Consul does): a message can only be sent
+\* to an address that carries the destination's node name.  For queries the DIRECT reply is then dropped on the
+\* transport, so that only the relayed copy can reach the origin; for hand-made envelopes the destination name is the
+\* destination's real name.
 QueryIn == { Rec("query", 5, 5, "-", NoTags, 0, n, p, r, 0) : n \in Strs(1), p \in Strs(MaxStr), r \in Strs(MaxStr) }
+           \cup { Rec("query", 5, 5, "named", NoTags, 0, <<1>>, p, r, 0) : p \in Strs(MaxStr), r \in Strs(MaxStr) }
 RelayIn == { Rec("relay", 5, 5, "-", NoTags, 0, p, d, <<>>, 0) : p \in Strs(MaxStr), d \in Strs(1) }
+           \cup { Rec("relay", 5, 5, "named", NoTags, 0, p, <<>>, <<>>, 0) : p \in Strs(MaxStr) }
 Inputs == TagIn \cup SizeIn \cup EventIn \cup QueryIn \cup RelayIn
 
 ------------------------------------------------------------------------------
@@ -94,6 +102,7 @@ Clauses(i, o) ==
     [] i.ep = "relay" -> IF o.same = 1 /\ o.n = 1 THEN {} ELSE {"C32_relay_bytes"}
 
 Tags(i) == {i.ep} \cup (IF i.ep = "tags" /\ RoleMagic(i.pv, i.tags) THEN {"role_magic_pv2"} ELSE {})
+           \cup (IF i.ep \in {"query", "relay"} /\ i.via = "named" THEN {"named"} ELSE {})
 
 (* model of the code as found: used only by the config that EXPECTS the monitor to fire *)
 CodeAsFound(i) == IF i.ep = "tags" THEN [seen |-> Decode(Encode(i.pv, i.tags)), ok |-> 1] ELSE Expected(i)
